@@ -16,8 +16,38 @@ REQUIRED = [
     "DaeVerif.C01.Props.non_matching_rule_skipped",
     "DaeVerif.C01.Props.first_final_decides",
     "DaeVerif.C01.Props.route_ipversion",
+    "DaeVerif.C01.Props.match_bytes_is_first_match",
+    "DaeVerif.C01.Props.outbound_in_reserved_range_misroutes",
+    "DaeVerif.C01.Props.route_ipversion_condition",
+    "DaeVerif.C01.Props.route_packet_wf",
+    "DaeVerif.C01.Props.route_is_first_match",
+    "DaeVerif.C01.Props.compiled_negated_mac_never_matches_zero_mac",
+    "DaeVerif.C01.Props.compiled_pname_unknown_never_matches",
+    "DaeVerif.C01.Props.compiled_port_range_inclusive",
+    "DaeVerif.C01.Props.compiled_first_final_decides",
     "DaeVerif.Compose.match_with_real_domain_matcher",
 ]
+
+
+FALLBACK_CHAIN = '''package control
+
+import (
+	"github.com/daeuniverse/dae/common/assets"
+	"github.com/daeuniverse/dae/component/routing"
+	"github.com/sirupsen/logrus"
+)
+
+func c01ProductionOptimizers(log *logrus.Logger, locationFinder *assets.LocationFinder) []routing.RulesOptimizer {
+	return []routing.RulesOptimizer{
+		&routing.AliasOptimizer{},
+		&routing.DatReaderOptimizer{Logger: log, LocationFinder: locationFinder},
+		&routing.MergeAndSortRulesOptimizer{},
+		&routing.DeduplicateParamsOptimizer{},
+	}
+}
+
+var c01ProductionOptimizerExprs = []string{"(fallback copy)"}
+'''
 
 
 def run(ctx):
@@ -34,9 +64,33 @@ def run(ctx):
     ctx.required_theorems(REQUIRED)
 
     fake = ctx.fake_bpf_overlay()
-    binp = fake and ctx.go_test_build("control", ["control/c01_test.go", "control/c12_test.go"], "c01", tags="", extra_overlay=fake)
+    if not fake:
+        return 2
+    # the optimizer chain of NewControlPlane, regenerated from control_plane.go on every run
+    from verifkit import REPO, VERIF, CACHE, sh, go_env
+    chain = os.path.join(CACHE, "gen", "c01_chain.go")
+    if os.path.exists(chain):
+        os.unlink(chain)
+    rc, out, dt = sh(["go", "run", "main.go", os.path.join(REPO, "control"), chain],
+                     cwd=os.path.join(VERIF, "translators", "optchain"), env=go_env(), timeout=600)
+    ctx.log.write(f"$ optchain [{dt:.1f}s rc={rc}] {out}\n")
+    ov = dict(fake)
+    chain_mode = "regenerated from control_plane.go"
+    binp = None
+    if rc == 0:
+        ov[os.path.join(REPO, "control", "zz_verif_c01_chain.go")] = chain
+        binp = ctx.go_test_build("control", ["control/c01_test.go", "control/c12_test.go"], "c01", tags="", extra_overlay=ov)
+    if not binp:
+        # the call site no longer has the shape `routing.NewNormalizedProgram(rules, fallback, <literals>…)`:
+        # fall back to the chain as it was when this check was written, and say so
+        chain_mode = "FALLBACK copy (production call site not extractable: %s)" % out.strip()[-200:]
+        open(chain, "w").write(FALLBACK_CHAIN)
+        ov[os.path.join(REPO, "control", "zz_verif_c01_chain.go")] = chain
+        binp = ctx.go_test_build("control", ["control/c01_test.go", "control/c12_test.go"], "c01", tags="", extra_overlay=ov)
     if not binp:
         return 2
+    ctx.cov["production_optimizer_chain"] = chain_mode
+    ctx.trusted.append("optimizer chain used by the harness: " + chain_mode + " (translators/optchain)")
     rc, out = ctx.run_harness(binp, "TestVerifC01")
     ops, impl, model = (os.path.join(ctx.out, "c01." + e) for e in ("ops", "impl", "model"))
     if rc != 0 or not os.path.exists(ops):
@@ -57,7 +111,7 @@ def run(ctx):
                    {"stream": "c01", "line": ln, "program": prog_of.get(ln), "op": op, "impl": im, "model": mo,
                     "replay": "VERIF_SEED=%d ./check C01 %s" % (ctx.seed, ctx.tier)})
     for i, mo in enumerate(model_l):
-        if "SPEC-DIFFERS" in mo or "REAL-MATCHER-DIFFERS" in mo or "bad-name" in mo or mo == "bad-op":
+        if "SPEC-DIFFERS" in mo or "REAL-MATCHER-DIFFERS" in mo or "BYTES-DIFFER" in mo or "bad-name" in mo or mo == "bad-op":
             ctx.report("model driver: scan and specification differ / bad op (harness-model protocol bug)", {"line": i + 1, "op": ops_l[i], "model": mo})
             break
     # generator quality: which rule decided (diagnostic second pass of the model driver)
@@ -74,15 +128,18 @@ def run(ctx):
                 i = int(m.group(1))
                 hits["rule#0" if i == 0 else "rule#1-3" if i <= 3 else "rule#4-9" if i <= 9 else "rule#10+"] += 1
     ctx.cov["decided_by"] = dict(hits)
-    pk = [(o, m) for o, m in zip(ops_l, impl_l) if o.startswith("pkt ")]
+    pk = [(o, m) for o, m, pr in zip(ops_l, impl_l, [prog_of.get(i + 1) for i in range(len(ops_l))])
+          if (o.startswith("pkt ") or o.startswith("rpkt ")) and pr and not pr.split()[4:5] == ["0"]]
+    ctx.cov["packets_on_empty_programs (not counted as evaluations)"] = sum(
+        1 for i, o in enumerate(ops_l) if (o.startswith("pkt ") or o.startswith("rpkt ")) and (prog_of.get(i + 1) or "").split()[4:5] == ["0"])
     hist = collections.Counter(m for _, m in pk)
     stats = json.load(open(os.path.join(ctx.out, "c01.stats.json")))
-    ctx.samples = stats["samples"][:2] + [x for x in ops_l if x.startswith("pkt ")][:3]
+    ctx.samples = stats["samples"][:2] + [x for x in ops_l if x.startswith("pkt ") or x.startswith("rpkt ")][:3]
     ctx.cov["input_distribution"] = stats["counters"]
     ctx.cov["distinct_decisions"] = len(hist)
     ctx.cov["programs"] = sum(1 for o in ops_l if o.startswith("prog "))
     return ctx.finish(
         rule="one evaluation = (generated routing section, packet aimed at one of its rules with boundary values) through the real "
              "parser+config.New+builder+Route/Match vs the proved specification; distinct_nontrivial = distinct (program, packet) "
-             "lines whose decision is not the plain fallback of an empty program",
+             "lines of non-empty programs (packets on empty programs are run and compared but not counted)",
         evaluations=len(pk), distinct=len(set(o for o, _ in pk)))
